@@ -5,7 +5,8 @@
 (* leaf or an element with a short sequence of leaves inside.              *)
 (*   leaf kinds: "t" target element (attribute subset), "o" other element, *)
 (*   "n" namespaced element, "x" text with entity references, "c" CDATA    *)
-(*   section, "m" comment, "p" processing instruction                      *)
+(*   section, "m" comment, "p" processing instruction, "r" text and an     *)
+(*   attribute value with carriage-return / line-feed / tab references     *)
 (* The edit of the attribute transformer: every SELECTED target element    *)
 (* gets the mapped attributes (a := "X", c := "N"), nothing else changes.  *)
 (* The edit of the new-element transformer: every target element gets one  *)
@@ -20,7 +21,7 @@ VARIABLES doc, exp, st
 
 AttrSets == SUBSET {"a", "b"}
 Leaves == {[k |-> "t", attrs |-> A, kids |-> <<>>] : A \in AttrSets}
-          \cup {[k |-> x, attrs |-> {}, kids |-> <<>>] : x \in {"o", "n", "x", "c", "m", "p", "mx"}}      \* mx: a comment inside mixed content (text on both sides)
+          \cup {[k |-> x, attrs |-> {}, kids |-> <<>>] : x \in {"o", "n", "x", "c", "m", "p", "mx", "r"}}      \* mx: a comment inside mixed content (text on both sides); r: text and attribute with &#13; / &#10; / &#9; character references
 Nested == {[k |-> kk, attrs |-> A, kids |-> ks] : kk \in {"t", "o"}, A \in {{}, {"a"}},
              ks \in UNION {[1..n -> Leaves] : n \in 1..2}}
 Items == Leaves \cup Nested
